@@ -208,6 +208,9 @@ func (p *ReaderSkipDecoder) SkipN(n int) (buf []byte, err error) {
 		var nn int
 		nn, err = p.r.Read(buf[i:])
 		i += nn
+		if i >= n {
+			err = nil // all n bytes have been read, like io.ReadFull
+		}
 	}
 	if err != nil {
 		return
